@@ -543,6 +543,43 @@ def make_world(sched, instrument=True, validator='lxml', monitor=True):
     app = Application([Svc], TNS, name='C12App', in_protocol=in_prot, out_protocol=out_prot)
     wsgi = WsgiApplication(app)
     w.app, w.wsgi, w.in_prot, w.out_prot = app, wsgi, in_prot, out_prot
+
+    # a second application on the JSON protocols (soft validation): its responses go through
+    # sort_fields / get_cls_attrs of the out protocol (the member order of JItem is a protocol attribute)
+    from spyne.protocol.json import JsonDocument
+
+    class JItem(ComplexModel):
+        __namespace__ = TNS + '.j'
+        name = Unicode(order=0, pa={JsonDocument: dict(order=2)})
+        qty = Integer(order=1)
+        note = Unicode(order=2, pa={JsonDocument: dict(order=0)})
+
+    class JBox(ComplexModel):
+        __namespace__ = TNS + '.j'
+        owner = Unicode
+        items = Array(JItem)
+
+    class JSvc(ServiceBase):
+        @rpc(Unicode, Integer, _returns=JBox)
+        def jbox(ctx, owner, n):
+            return JBox(owner=owner, items=[JItem(name=u'%s-%d' % (owner, i), qty=i, note=u'n%d' % i)
+                                            for i in range(n or 0)])
+
+        @rpc(Integer(ge=0), _returns=Integer)
+        def jsq(ctx, a):
+            return (a or 0) * (a or 0)
+
+        @rpc(JBox, _returns=Unicode(pa={JsonDocument: dict(str_format=u'<{0}>')}))
+        def jsum(ctx, b):
+            return u'%s:%d' % (b.owner, sum((i.qty or 0) for i in (b.items or [])))
+
+        @rpc(Unicode, _returns=Unicode)
+        def jboom(ctx, code):
+            raise Fault('Client.JBoom%s' % code, 'jboom %s' % code)
+
+    w.j_in, w.j_out = JsonDocument(validator='soft'), JsonDocument()
+    w.japp = Application([JSvc], TNS + '.j', name='C12JsonApp', in_protocol=w.j_in, out_protocol=w.j_out)
+    w.jwsgi = WsgiApplication(w.japp)
     w.wsdl11 = wsgi.doc.wsdl11
     # unit-level keys: classes with / without protocol specific attributes
     w.keys = []
@@ -620,7 +657,8 @@ def make_world(sched, instrument=True, validator='lxml', monitor=True):
     watch_attrs(sched, wsgi, {'_wsdl': (RD_APP, WR_APP, encdoc)})
     watch_attrs(sched, w.wsdl11, {'_Wsdl11__wsdl': (RD_B, WR_B, encdoc)})
     if monitor:
-        for o in (app, in_prot, out_prot, app.interface, wsgi.doc, wsgi.doc.xml_schema):
+        for o in (app, in_prot, out_prot, app.interface, wsgi.doc, wsgi.doc.xml_schema,
+                  w.japp, w.j_in, w.j_out, w.japp.interface, w.jwsgi, w.jwsgi.doc):
             try:
                 monitor_writes(sched, o)
             except TypeError:
@@ -686,10 +724,30 @@ def req_body(r):
         return soap('<tns:nosuch%d/>' % r[1])
     if kind == 'garbage':
         return b'<not-xml %d' % r[1]
+    # ---- JSON application
+    if kind == 'jbox':
+        return json.dumps({'jbox': {'owner': r[1], 'n': r[2]}}).encode('utf8')
+    if kind == 'jsq':          # negative values fail soft validation (ge=0)
+        return json.dumps({'jsq': {'a': r[1]}}).encode('utf8')
+    if kind == 'jsum':
+        return json.dumps({'jsum': {'b': {'owner': r[1], 'items': [{'name': 'i%d' % q, 'qty': q} for q in r[2]]}}}).encode('utf8')
+    if kind == 'jbadtype':     # not an integer: Client.ValidationError naming THIS request's value
+        return json.dumps({'jsq': {'a': 'bad%d' % r[1]}}).encode('utf8')
+    if kind == 'jboom':
+        return json.dumps({'jboom': {'code': r[1]}}).encode('utf8')
+    if kind == 'jnomethod':
+        return json.dumps({'jnosuch%d' % r[1]: {}}).encode('utf8')
+    if kind == 'jgarbage':
+        return b'{not-json %d' % r[1]
     raise ValueError(r)
+
+def is_json(r):
+    return r[0].startswith('j')
 
 def call_wsgi(wsgi, r):
     """process one request in-process; returns (status, content-type, body bytes)"""
+    if isinstance(wsgi, World):
+        wsgi = wsgi.jwsgi if is_json(r) else wsgi.wsgi
     body = req_body(r)
     env = {'SERVER_NAME': URL_HOST, 'SERVER_PORT': '80', 'wsgi.url_scheme': 'http', 'SCRIPT_NAME': '',
            'PATH_INFO': '/svc', 'HTTP_HOST': URL_HOST, 'wsgi.errors': io.StringIO(),
@@ -697,7 +755,8 @@ def call_wsgi(wsgi, r):
     if body is None:
         env.update({'REQUEST_METHOD': 'GET', 'QUERY_STRING': 'wsdl', 'wsgi.input': io.BytesIO(b'')})
     else:
-        env.update({'REQUEST_METHOD': 'POST', 'QUERY_STRING': '', 'CONTENT_TYPE': 'text/xml; charset=utf-8',
+        env.update({'REQUEST_METHOD': 'POST', 'QUERY_STRING': '',
+                    'CONTENT_TYPE': 'application/json' if is_json(r) else 'text/xml; charset=utf-8',
                     'CONTENT_LENGTH': str(len(body)), 'wsgi.input': io.BytesIO(body)})
     got = {}
 
@@ -767,7 +826,7 @@ def unit_body(w, sched, r):
         return None
     # any other descriptor: a full WSGI request
     def f():
-        st, ct, data = call_wsgi(w.wsgi, r)
+        st, ct, data = call_wsgi(w, r)
         return ['http', st, ct, data.decode('utf8', 'replace')]
     return f
 
@@ -1065,6 +1124,22 @@ def unit_scenarios(check, tier):
         sc.append(s)
     return sc
 
+def json_request(rng):
+    c = rng.random()
+    if c < 0.3:
+        return ['jbox', rng.choice(['ann', 'bob']), rng.randint(0, 3)]
+    if c < 0.5:
+        return ['jsq', rng.randint(-9, 9)]
+    if c < 0.65:
+        return ['jsum', rng.choice(['ann', 'bob']), [rng.randint(1, 9) for _ in range(rng.randint(0, 3))]]
+    if c < 0.78:
+        return ['jbadtype', rng.randint(0, 9)]
+    if c < 0.9:
+        return ['jboom', rng.choice(['A', 'B'])]
+    if c < 0.96:
+        return ['jnomethod', rng.randint(0, 9)]
+    return ['jgarbage', rng.randint(0, 9)]
+
 def http_request(rng):
     c = rng.random()
     if c < 0.2:
@@ -1100,10 +1175,18 @@ def http_scenarios(check, tier):
         [['tag', 'p'], ['tag', 'p'], ['echo', 'a', 1]],
         [['boom', 'A'], ['add', 1, 2], ['wsdl']],
         [['badint', 3], ['invalid', 4], ['echo', 'c', 3], ['wsdl']],
+        [['jbox', 'ann', 2], ['jbox', 'bob', 1]],
+        [['jsum', 'ann', [1, 2]], ['jsq', -3], ['jbadtype', 4]],
     ]
     n = 4 if tier == 'quick' else 40
-    for _ in range(n):
-        sc.append([http_request(rng) for _ in range(rng.randint(2, 4))])
+    for i in range(n):
+        k = rng.randint(2, 4)
+        if i % 4 == 2:      # JSON application only
+            sc.append([json_request(rng) for _ in range(k)])
+        elif i % 4 == 3:    # both applications at once (they share the service-independent class-level state)
+            sc.append([json_request(rng) if rng.random() < 0.5 else http_request(rng) for _ in range(k)])
+        else:
+            sc.append([http_request(rng) for _ in range(k)])
     return sc
 
 
@@ -1147,11 +1230,20 @@ def run(check):
         '(the repaired code holds a lock across validate()+error_log, which covers them; the pinned code does not)',
         'the URL of all concurrent ?wsdl requests is the same (the document embeds the URL of the first requester)',
     ]
+    phase_t = {}
+    t_last = [time.time()]
+
+    def phase(name):
+        now = time.time()
+        phase_t[name] = round(phase_t.get(name, 0) + now - t_last[0], 1)
+        t_last[0] = now
+
     check.regen(['conctext'])
     check.check_sources()
     check.prove('Props.C12', THEOREMS)
 
     oracle_docs()
+    phase('prove')
     cases = []
     stats = {'runs': 0, 'access_level': 0, 'line_level': 0, 'http': 0, 'random_all_lines': 0, 'witness': 0,
              'max_switch_points': 0, 'threads': {}}
@@ -1184,39 +1276,45 @@ def run(check):
         check.sample({'witness_schedule': script, 'requests': reqs,
                       'results': {str(k): canon_result(v) for k, v in r['results'].items()}, 'builds': r['builds']})
 
+    phase('witnesses')
     # 1. access-level systematic exploration of the model-tied scenarios
     for reqs in unit_scenarios(check, tier):
         bound = 2 if len(reqs) <= 2 else 1
         if not quick:
             bound += 1
-        budget = (150 if len(reqs) <= 2 else 80) if quick else 3000
+        budget = (110 if len(reqs) <= 2 else 60) if quick else 3000
         for r in explore(check, reqs, None, bound, budget):
             account(r, 'access_level')
             handle(check, r, cases)
 
+    phase('access_level')
     # 2. line-granularity exploration (sys.settrace line+return events inside the shared-state code)
     for reqs in unit_scenarios(check, tier)[:N_FIXED_UNIT]:
-        budget = 40 if quick else 1500
+        budget = 30 if quick else 1500
         for r in explore(check, reqs, LINE_FUNCS_SHARED, 1 if quick else 2, budget):
             account(r, 'line_level')
             handle(check, r, cases)
 
+    phase('line_level')
     # 3. end-to-end WSGI requests (SOAP calls, faults, validation failures, ?wsdl) at line granularity
     for reqs in http_scenarios(check, tier):
-        budget = 30 if quick else 600
+        budget = 18 if quick else 600
         for r in explore(check, reqs, LINE_FUNCS_SHARED, 1 if quick else 2, budget):
             account(r, 'http')
             handle(check, r, cases)
         # randomized stress: switch points at EVERY line of every spyne/ function
-        for _ in range(6 if quick else 200):
+        for _ in range(4 if quick else 200):
             r = run_once(reqs, RandomChooser(check.rng, check.rng.choice([0.002, 0.01, 0.05])), 'ALL')
             r['lines'] = 'ALL'
             account(r, 'random_all_lines')
             handle(check, r, cases)
 
+    phase('http')
     lib.correspond(check, 'schedules', IMPORTS, 'case', '(corr_ok Repaired)', cases,
                    show='(corr_show Repaired)', shard=150)
     lib.flush_correspondences(check)
+    phase('coq_cases')
+    stats['seconds'] = phase_t
     check.extra['exploration'] = stats
     return check.finish()
 
